@@ -15,6 +15,7 @@ import (
 	"go/parser"
 	"go/token"
 	"go/types"
+	"hash/fnv"
 	"os"
 	"path/filepath"
 	"sort"
@@ -45,7 +46,8 @@ func (s *stubImporter) Import(path string) (*types.Package, error) {
 
 type rangeSite struct {
 	file, fn, expr string
-	line           int // not part of the generated list (it moves with every edit)
+	body           string // FNV-1a of the loop body as gofmt prints it (white space collapsed): the classification is about the body
+	line           int    // not part of the generated list (it moves with every edit)
 }
 
 func srcOf(fset *token.FileSet, n ast.Node) string {
@@ -107,11 +109,13 @@ func scanMapRanges(repo string) ([]rangeSite, error) {
 				tv, ok := info.Types[rs.X]
 				if !ok || tv.Type == nil {
 					// a range whose operand could not be typed is listed too (as unknown): it must be looked at
-					sites = append(sites, rangeSite{filepath.Base(fset.Position(rs.Pos()).Filename), fn, "?untyped: " + srcOf(fset, rs.X), fset.Position(rs.Pos()).Line})
+					sites = append(sites, rangeSite{filepath.Base(fset.Position(rs.Pos()).Filename), fn, "?untyped: " + srcOf(fset, rs.X), "-", fset.Position(rs.Pos()).Line})
 					return true
 				}
 				if _, isMap := tv.Type.Underlying().(*types.Map); isMap {
-					sites = append(sites, rangeSite{filepath.Base(fset.Position(rs.Pos()).Filename), fn, srcOf(fset, rs.X), fset.Position(rs.Pos()).Line})
+					h := fnv.New32a()
+					h.Write([]byte(srcOf(fset, rs.Body)))
+					sites = append(sites, rangeSite{filepath.Base(fset.Position(rs.Pos()).Filename), fn, srcOf(fset, rs.X), fmt.Sprintf("%08x", h.Sum32()), fset.Position(rs.Pos()).Line})
 				}
 				return true
 			})
@@ -145,10 +149,10 @@ func doExtractMapRanges(repo, gen string) int {
 		return 2
 	}
 	var sb strings.Builder
-	sb.WriteString("(* Gen/GenMapRange.v — GENERATED on every run of ./check C02 from the .go files of the package\n   by harness/cmd/c02 (-extract-mapranges); do not edit.  Every `for ... range <map>` loop:\n   (file, function, ranged expression, occurrence), one entry per loop; an operand\n   whose type is not known here (it comes from an imported package) is listed as `?untyped: ...`. *)\n")
+	sb.WriteString("(* Gen/GenMapRange.v — GENERATED on every run of ./check C02 from the .go files of the package\n   by harness/cmd/c02 (-extract-mapranges); do not edit.  Every `for ... range <map>` loop:\n   (file, function, ranged expression, occurrence, hash of the loop body), one entry per loop; an operand\n   whose type is not known here (it comes from an imported package) is listed as `?untyped: ...`. *)\n")
 	sb.WriteString("From AL Require Import Base.Str.\n\n")
 	sb.WriteString("(* the last component numbers the loops of one function over the same expression in source order *)\n")
-	sb.WriteString("Definition map_range_sites : list (string * string * string * N) := [\n")
+	sb.WriteString("Definition map_range_sites : list (string * string * string * N * string) := [\n")
 	occ := map[[3]string]int{}
 	for i, s := range sites {
 		sep := ";"
@@ -156,7 +160,7 @@ func doExtractMapRanges(repo, gen string) int {
 			sep = ""
 		}
 		k := [3]string{s.file, s.fn, s.expr}
-		fmt.Fprintf(&sb, "  (%s, %s, %s, %d%%N)%s\n", hx.CoqStr(s.file), hx.CoqStr(s.fn), hx.CoqStr(s.expr), occ[k], sep)
+		fmt.Fprintf(&sb, "  (%s, %s, %s, %d%%N, %s)%s\n", hx.CoqStr(s.file), hx.CoqStr(s.fn), hx.CoqStr(s.expr), occ[k], hx.CoqStr(s.body), sep)
 		occ[k]++
 	}
 	sb.WriteString("].\n")
